@@ -1,10 +1,126 @@
-import ActixModel.Model.H1Conn
+import ActixModel.Proofs.H1Decode
+import ActixModel.Proofs.H1Conn
 /-
-C01 — HTTP/1 request framing is unambiguous and segmentation-independent.
-(first milestone: decision-logic theorems; segmentation / round-trip theorems follow)
+C01 — HTTP/1 request framing is unambiguous and independent of TCP segmentation.
+
+Models: `Model/H1Chunked.lean` (`ChunkedState::step`), `Model/H1Decode.lean` (payload decoders,
+`set_headers`, `Request::decode`, `Codec::decode`, the dispatcher's decode loop `feed`),
+`Model/H1Conn.lean` (decode loop + reject flag + error response + close).
+All theorems quantify over every byte string / every list of segments / every event list;
+nothing is bounded.  `flat` erases chunk boundaries (body bytes one by one): which `Chunk`
+messages a body arrives in does depend on the reads, the bytes do not.
 -/
 namespace ActixModel.H1.C01
 open ActixModel.Util ActixModel.H1
+
+/-! ## what the application sees -/
+
+/-- a request as the application sees it: head, exact body bytes, body complete or not -/
+structure ReqObs where
+  head : ReqHead
+  pt : PayloadType
+  body : Bytes
+  complete : Bool
+  deriving DecidableEq, Repr
+
+/-- fold flat events into requests (most recent first) -/
+def obsStep (acc : List ReqObs) : Ev → List ReqObs
+  | .head h pt => { head := h, pt := pt, body := [], complete := pt == .none } :: acc
+  | .byte b => match acc with
+    | r :: rest => { r with body := r.body ++ [b] } :: rest
+    | [] => []
+  | .eof => match acc with
+    | r :: rest => { r with complete := true } :: rest
+    | [] => []
+
+def obs (evs : List Ev) : List ReqObs := (evs.foldl obsStep []).reverse
+
+/-- requests seen after feeding the segments `segs` to a fresh connection -/
+def seen (segs : List Bytes) : List ReqObs := obs (flat (feedAll {} segs).1)
+
+/-! ## segmentation independence -/
+
+/-- **C01_codec_segmentation.**  For *every* way of cutting a byte stream into reads (any number
+of segments, 1-byte reads, empty reads), the decode loop delivers the same requests, byte for
+byte, and ends in the same state (payload decoder state, buffered bytes, error) as for one read
+of the whole stream — or some read left an incomplete head of ≥ `MAX_BUFFER_SIZE` bytes in the
+buffer, and then the connection is dead with `TooLarge` (431) having delivered a prefix. -/
+theorem C01_codec_segmentation (segs : List Bytes) :
+    (flat (feedAll {} segs).1 = flat (feedAll {} [segs.flatten]).1 ∧
+      (feedAll {} segs).2 = (feedAll {} [segs.flatten]).2) ∨
+    ((feedAll {} segs).2 = deadTL ∧
+      flat (feedAll {} segs).1 <+: flat (feedAll {} [segs.flatten]).1 ∧
+      ∃ pre acc q, pre <+: segs.flatten ∧ (runSt (.head [] .lead0) pre).1 = .head acc q ∧
+        Consts.h1MaxBufferSize ≤ acc.length) := by
+  have h := feedAll_segmentation segs (.head [] .lead0) quiet_init
+  have e : feedAll {} [segs.flatten] = ((feed {} segs.flatten).1 ++ [], (feed {} segs.flatten).2) := rfl
+  rw [e, List.append_nil]
+  exact h
+
+/-- **C01_codec_segmentation_small.**  A stream shorter than `MAX_BUFFER_SIZE` (128 KiB) is
+decoded identically under every segmentation, unconditionally. -/
+theorem C01_codec_segmentation_small (segs : List Bytes)
+    (hlen : segs.flatten.length < Consts.h1MaxBufferSize) :
+    flat (feedAll {} segs).1 = flat (feedAll {} [segs.flatten]).1 ∧
+      (feedAll {} segs).2 = (feedAll {} [segs.flatten]).2 := by
+  rcases C01_codec_segmentation segs with h | ⟨_, _, pre, acc, q, hp, hs, hbig⟩
+  · exact h
+  · exfalso
+    have h1 := runSt_accLen pre (.head [] .lead0)
+    rw [hs] at h1
+    have h2 : pre.length ≤ segs.flatten.length := hp.length_le
+    simp only [accLen, List.length_nil] at h1
+    omega
+
+/-- **C01_seen_segmentation.**  The sequence of requests the application sees (method, target,
+version, headers, exact body bytes, completeness) is the same for every segmentation of a
+stream shorter than the head-size limit. -/
+theorem C01_seen_segmentation (segs : List Bytes)
+    (hlen : segs.flatten.length < Consts.h1MaxBufferSize) :
+    seen segs = seen [segs.flatten] := by
+  unfold seen
+  rw [(C01_codec_segmentation_small segs hlen).1]
+
+example : ([[71, 69], [], [84, 32]] : List Bytes).flatten.length < Consts.h1MaxBufferSize := by decide
+
+/-- **C01_body_segmentation** (the DESIGN's `C01_chunked_segmentation`, for all three decoder
+kinds).  From any resting payload-decoder state — inside a chunk-size line, between CR and LF,
+in the middle of chunk data, `n` bytes before the end of a fixed-length body — the remaining
+reads can be cut anywhere: same body bytes, same residual state, same following requests;
+with the same head-size proviso for the requests that follow the body. -/
+theorem C01_body_segmentation (k : Kind) (hk : Normal k) (segs : List Bytes) :
+    (flat (feedAll { payload := some k } segs).1 = flat (feed { payload := some k } segs.flatten).1 ∧
+      (feedAll { payload := some k } segs).2 = (feed { payload := some k } segs.flatten).2) ∨
+    ((feedAll { payload := some k } segs).2 = deadTL ∧
+      flat (feedAll { payload := some k } segs).1 <+: flat (feed { payload := some k } segs.flatten).1 ∧
+      ∃ pre acc q, pre <+: segs.flatten ∧ (runSt (.body k) pre).1 = .head acc q ∧
+        Consts.h1MaxBufferSize ≤ acc.length) :=
+  feedAll_segmentation segs (.body k) (quiet_body hk)
+
+example : Normal (.chunked .sizeLf 10) ∧ Normal (.chunked .body 3) ∧ Normal (.length 7) := by
+  simp [Normal, NormalC]
+
+/-- **C01_decoder_is_automaton.**  One read followed by the decode loop is exactly the byte
+automaton run over the bytes read (`stepSt` is `ChunkedState::step`, the head-end scanner and
+the framing decision applied to one byte at a time), followed by the buffer-limit test. -/
+theorem C01_decoder_is_automaton (s : St) (hs : StOk s) (seg : Bytes) :
+    flat (feed (conc s) seg).1 = (runSt s seg).2 ∧
+    (feed (conc s) seg).2 = limitCheck (conc (runSt s seg).1) :=
+  feed_conc s seg hs
+
+/-- **C01_reject_oversized.**  An incomplete head of at least `MAX_BUFFER_SIZE` bytes is refused
+with `TooLarge`, and nothing was delivered for it. -/
+theorem C01_reject_oversized (src : Bytes) (hinc : headEnd .lead0 src = none)
+    (hbig : Consts.h1MaxBufferSize ≤ src.length) :
+    feed {} src = ([], deadTL) := by
+  have hcd : codecDecode none src = .err .tooLarge := by
+    simp [codecDecode, decodeHead, hinc, hbig]
+  simp only [feed, Option.isSome_none, Bool.false_eq_true, if_false, List.nil_append, List.length_nil,
+    Nat.zero_add]
+  rw [feedLoop_err hcd]
+  rfl
+
+/-! ## framing decision: the malformed classes are rejected -/
 
 theorem teRules_te_cl (h : ReqHead)
     (hte : hasHeader bTransferEncoding h.headers = true)
@@ -41,5 +157,86 @@ theorem C01_reject_te_http10 (h : ReqHead)
   split
   · exact ⟨_, rfl⟩
   · simp only [this]; exact ⟨_, rfl⟩
+
+/-- **C01_cl_zero_is_no_body**: `Content-Length: 0` is normalised to "no body" (so that a
+zero-length decoder can never swallow the next request's first byte). -/
+theorem C01_cl_zero_is_no_body (m : Bytes) :
+    chooseDecoder m (.payload (.payload (.length 0))) = chooseDecoder m .none := by
+  simp [chooseDecoder, PayloadLength.isZero]
+
+/-! ## chunk syntax: strictness of `ChunkedState::step` -/
+
+/-- **C01_reject_chunk_no_digit** (DESIGN F12, since the fix): at the start of a chunk-size line
+anything but a hex digit — CR, BWS, `;` included — is an error. -/
+theorem C01_reject_chunk_no_digit (sz : Nat) (b : UInt8) (rest : Bytes) (h : hexDigitVal b = none) :
+    step .size sz (b :: rest) = .err .invalidSize := by
+  simp [step, readSize, h]
+
+/-- **C01_reject_chunk_size_overflow**: a digit that would push the size to 2^64 or beyond is an
+error (the size never wraps). -/
+theorem C01_reject_chunk_size_overflow (first : Bool) (sz d : Nat) (b : UInt8) (rest : Bytes)
+    (hd : hexDigitVal b = some d) (hbig : u64Bound ≤ sz * 16) :
+    readSize first sz (b :: rest) = .err .sizeTooBig := by
+  have : ¬ sz * 16 < u64Bound := by omega
+  simp [readSize, hd, this]
+
+/-- **C01_chunk_size_bounded**: every size `ChunkedState::step` produces from a size below 2^64
+is below 2^64 (so the model's `Nat` is a faithful `u64`). -/
+theorem C01_chunk_size_bounded (st st' : ChunkedState) (sz sz' : Nat) (src rest : Bytes) (out : Option Bytes)
+    (hsz : sz < u64Bound) (h : step st sz src = .ready st' sz' rest out) : sz' < u64Bound := by
+  cases st <;> simp only [step, readSize, readSizeLws, readExtension, readSizeLf, readExpect, readBody] at h
+  case size | sizeDigit =>
+    cases src with
+    | nil => simp at h
+    | cons b t =>
+      simp only at h
+      split at h
+      · rename_i d hd
+        split at h
+        · cases h
+          have : d < 16 := by
+            unfold hexDigitVal at hd
+            split at hd
+            · cases hd; omega
+            · split at hd
+              · cases hd; omega
+              · split at hd
+                · cases hd; omega
+                · cases hd
+          unfold u64Bound at *
+          omega
+        · cases h
+      · (repeat' split at h) <;> first | cases h; exact hsz | cases h
+  all_goals
+    first
+    | (cases src with
+        | nil => simp at h
+        | cons b t => simp only at h; (repeat' split at h) <;> first | (cases h; exact hsz) | cases h)
+    | ((repeat' split at h) <;> cases h <;> omega)
+    | (cases h; exact hsz)
+
+/-! ## nothing after a reject (connection level) -/
+
+/-- **C01_nothing_after_reject.**  For every history of reads and EOFs: once the decode loop has
+hit a parse error, the connection is closed, the last response written is the 400/431, and no
+later event — no byte that arrives afterwards — changes anything: no further request reaches
+the service, no further response is written, nothing is decoded. -/
+theorem C01_nothing_after_reject (before after : List ConnEv) (e : ParseErr)
+    (hrej : (connRun {} before).feed.dead = some e) :
+    (connRun {} before).closed = true ∧
+    (connRun {} before).statuses.getLast? = some (statusOf e) ∧
+    (statusOf e = 400 ∨ statusOf e = 431) ∧
+    connRun (connRun {} before) after = connRun {} before := by
+  have hinv := connRun_inv before {} rejectInv_init
+  obtain ⟨h1, h2⟩ := hinv e hrej
+  refine ⟨h1, h2, ?_, connRun_frozen after _ (by simp [hrej]) hinv⟩
+  cases e <;> simp [statusOf]
+
+/-- a history that does end in a reject: `GET / HTTP/1.1` with `Content-Length` and
+`Transfer-Encoding` -/
+example : ∃ e, (connRun {} [.read [71,69,84,32,47,32,72,84,84,80,47,49,46,49,13,10,
+    67,111,110,116,101,110,116,45,76,101,110,103,116,104,58,32,52,13,10,
+    84,114,97,110,115,102,101,114,45,69,110,99,111,100,105,110,103,58,32,99,104,117,110,107,101,100,13,10,
+    13,10]]).feed.dead = some e := ⟨.header, by decide⟩
 
 end ActixModel.H1.C01
